@@ -542,7 +542,7 @@ def gen_prelogon(rnd, n):
                 st.append(p("resend", b=rnd.randint(0, start + 2), e=rnd.choice([0, rnd.randint(0, start + 3)]), integ=integ, sq=sq))
             elif kd == "logon-bad":
                 if role == "initiator":
-                    st.append(p("logon", hb=30, integ=rnd.choice(["checksum", "bodylength", "nonnum"]), sq=sq))
+                    st.append(p("logon", hb=30, integ=rnd.choice(["checksum", "bodylength", "nonnum", "grpcount"]), sq=sq))
                 else:
                     which = rnd.choice(["hb", "enc", "cred", "integ"])
                     st.append(p("logon", hb=0 if which == "hb" else 30, enc="7" if which == "enc" else "0",
@@ -556,7 +556,7 @@ def gen_prelogon(rnd, n):
         out.append(dict(id="pre-%d" % k, cfg=cfg(role, startseq=start), steps=st))
     # every kind of refused Logon, then both timer deadlines pass, then more inbound traffic: still nothing but A / 5 / 3
     j = 0
-    for which in ("hb-low", "hb-high", "enc", "cred", "checksum", "bodylength", "nonnum", "seqnonnum"):
+    for which in ("hb-low", "hb-high", "enc", "cred", "checksum", "bodylength", "nonnum", "seqnonnum", "grpcount"):
         for hb in (1, 30):
             for start in (0, 4):
                 p = Peer()
